@@ -120,8 +120,14 @@ func VerifyFunc(P *Program, c *Contract, maxPaths int) (res *FuncResult) {
 	}
 	env := fv.bindContract(c, st, args, argTypes)
 	fv.entryEnv = env.vars
+	for _, ax := range P.Specs.Axioms {
+		if ax.Pkg == c.Pkg && c.Mode == ModeInt {
+			env.assume(st, ax.Expr)
+			fv.trusted["ghost definition (axiom) "+ax.Pos+": "+ax.Expr.String()] = true
+		}
+	}
 	for _, r := range c.Requires {
-		st.assume(env.evalBool(r))
+		env.assume(st, r)
 	}
 	st.mods = env.evalLocs(c.Modifies)
 	fv.entry = st.clone()
